@@ -173,6 +173,25 @@ def conv_cases(tier):
                     for cols in itertools.product([(0,), (1,), (0, 1), (1, 0)], repeat=len(s)):
                         yield {"fam": "conv", "kind": "subset", "n": n, "p": 2, "events": [[a, b, list(c)] for (a, b), c in zip(s, cols)],
                                "index": ik, "cols": "str"}
+    # MANY events in one output (up to 12 / 14, far beyond what the complete small spaces hold): every subset of the
+    # positions of a series of length 12 (thorough 14) as length-1 anomalies -- all adjacency patterns of up to n touching
+    # anomalies -- and, on a fixed half of them, pairs of positions merged into length-2 anomalies
+    nn = 12 if q else 14
+    colsets = [(0,), (1,), (0, 1), (1, 0), (2,), (2, 0)]
+    for mask in range(1, 2 ** nn):
+        pos = [i for i in range(nn) if mask >> i & 1]
+        ev1 = [[i, i + 1] for i in pos]
+        merged, i = [], 0
+        while i < len(pos):  # merge a position with its right neighbour when both are set and the left one is even
+            if i + 1 < len(pos) and pos[i + 1] == pos[i] + 1 and pos[i] % 2 == 0:
+                merged.append([pos[i], pos[i] + 2]); i += 2
+            else:
+                merged.append([pos[i], pos[i] + 1]); i += 1
+        for ev in (ev1, merged) if mask % 2 else (ev1,):
+            ik = ("range", "datetime", "offset", "zstep3")[mask % 4]
+            yield {"fam": "conv", "kind": "collective", "n": nn, "events": ev, "index": ik, "cols": "default"}
+            yield {"fam": "conv", "kind": "subset", "n": nn, "p": 3, "events": [[a, b, list(colsets[(a + j) % 6])] for j, (a, b) in enumerate(ev)],
+                   "index": ik, "cols": "str" if mask % 3 == 0 else "default"}
     for p, top in ((1, 5), (2, 4 if q else 5), (3, 3 if q else 4)):
         subsets = [c for r in range(1, p + 1) for c in itertools.combinations(range(p), r)]
         # also reversed column order (icolumns are listed by decreasing saving, not sorted)
@@ -231,7 +250,7 @@ def shards(tier, seed):
 
 
 def bounds(tier, seed):
-    return {"conv": "changepoint subsets n<=9 (quick)/11; interval sets n<=8/9; subset variant p=1 n<=5, p=2 n<=4/5, p=3 n<=3/4 (all non-empty column subsets, both column orders)",
+    return {"conv": "every subset of 12 (thorough 14) positions as touching length-1 / length-2 anomalies (collective and 3-column subset outputs); changepoint subsets n<=9 (quick)/11; interval sets n<=8/9; subset variant p=1 n<=5, p=2 n<=4/5, p=3 n<=3/4 (all non-empty column subsets, both column orders)",
             "index_kinds": list(dets.INDEX_KINDS), "index_kinds_on_reduced_families": list(dets.INDEX_KINDS_EXTRA), "column_labels": ["default ints", "strings", "integers p-1..0 (reduced families)", "integers 1..p (reduced families)"],
             "det": "6 univariate detectors on all (0,4) series n in (6,7) quick / (6..9) thorough x 5 index kinds; MVCAPA on all 2-column (0,4) series n in (4,5)/(4,5,6)"}
 
